@@ -198,6 +198,20 @@ func (f *Frame) checkReturn(e Exit) {
 	if e.RetIdx < 0 {
 		anchor = "return#recover"
 	}
+	// vacuity: every return statement of the function must be reachable in the model. An unreachable return makes
+	// every postcondition there vacuous; this is how an inconsistency between a callee's contract and the way the
+	// call is modelled shows up (only a definite "unsat" counts; the probe is short)
+	if e.RetIdx > 0 && e.Cond != "true" {
+		seen := false
+		for _, o := range vc.obligs {
+			if o.Name == name+"#vacuity:"+anchor {
+				seen = true
+			}
+		}
+		if !seen {
+			vc.obligs = append(vc.obligs, &Obligation{Name: name + "#vacuity:" + anchor, Kind: "vacuity", Fn: name, Goal: not(e.Cond), NAssert: len(vc.asserts), Pos: f.pos(e.Pos), Desc: "this return statement is reachable (its postconditions are not vacuous)", ExpectSat: true, vc: vc, Props: con.Props})
+		}
+	}
 	// hints evaluated with access to local cells
 	henv := f.env(e.St)
 	for k, v := range f.resultBindings(e) {
